@@ -64,6 +64,9 @@ theorem rebuildAP_setBefore {e : Expr} (he : e.before = []) {bf : List Trivia} (
   | wth e bd c g s b a =>
     simp only [Expr.before] at he; subst he
     simp [Expr.setBefore, Expr.rebuildAP, addTriviaP, fmtP_nil]
+  | sel e ats g ab b a =>
+    simp only [Expr.before] at he; subst he
+    simp [Expr.setBefore, Expr.rebuildAP, addTriviaP, fmtP_nil]
   | asrt c bd x y b a =>
     simp only [Expr.before] at he; subst he
     have hsp : ∀ (bf' a' : List Trivia) (core : List FP), addTriviaP bf' a' core i inl = fmtP bf' i ++ addTriviaP [] a' core i inl := by
@@ -127,6 +130,9 @@ theorem rebuildAP_addAfter_emptyLine {e : Expr} (he : e.effAfter false = []) (hn
   | wth e bd c g s b a =>
     simp only [Expr.effAfter, Bool.false_eq_true, if_false] at he; subst he
     simp [Expr.addAfter, Expr.setAfter, Expr.after, Expr.rebuildAP, addTriviaP, trailP_emptyLine, trailP_nil]
+  | sel e ats g ab b a =>
+    simp only [Expr.effAfter, Bool.false_eq_true, if_false] at he; subst he
+    simp [Expr.addAfter, Expr.setAfter, Expr.after, Expr.rebuildAP, addTriviaP, trailP_emptyLine, trailP_nil]
   | asrt c bd x y b a => cases hna
 
 def spacesIf (inl : Bool) (i : Nat) : Text := if inl then [] else spaces i
@@ -151,6 +157,7 @@ theorem cf_parse_notAsrt {c : Cst} {e : Expr} (hcf : c.cf = true) (hp : c.parse 
   | paren its cg => obtain ⟨v, lg, tg, lb, tb, rfl⟩ := paren_parse_shape hp; rfl
   | app f cs g a => obtain ⟨n, x, g', fa, rfl⟩ := app_parse_shape hp; rfl
   | kw w c1 g1 h c2 g2 c3 g3 b => simp [Cst.cf] at hcf
+  | sel e c1 g1 gd ats => simp [Cst.cf] at hcf
 
 theorem addAfter_nil (e : Expr) : e.addAfter [] = e := by
   cases e <;> simp [Expr.addAfter, Expr.setAfter, Expr.after]
@@ -312,6 +319,33 @@ theorem flatten_solid : ∀ (c : Cst), c.wf = true → solidT c.flatten
     simp only [Cst.wf, Bool.and_eq_true] at h
     simp only [Cst.flatten]
     exact solidT_append_left' _ (flatten_solid b h.2)
+  | .sel e c1 g1 gd attrs, h => by
+    simp only [Cst.wf, Bool.and_eq_true, Bool.not_eq_true', List.isEmpty_eq_false_iff] at h
+    simp only [Cst.flatten]
+    have hat : solidT (attrText attrs) := by
+      have hne := h.1.2
+      have hall := h.2
+      clear h
+      induction attrs with
+      | nil => exact absurd rfl hne
+      | cons a r ih =>
+        simp only [List.all_cons, Bool.and_eq_true] at hall
+        have ha : solidT a := by
+          have := hall.1
+          simp only [attrSegOk, Bool.and_eq_true, Bool.not_eq_true', List.isEmpty_eq_false_iff] at this
+          refine ⟨this.1.1.1, ?_⟩
+          have hl := getLast?_ne_nl_of_no_nl _ this.1.1.2
+          simp [endsWithNL, hl]
+        cases r with
+        | nil => simpa [attrText] using ha
+        | cons b r' =>
+          have := ih (by simp) hall.2
+          simp only [attrText]
+          rw [show a ++ '.' :: attrText (b :: r') = (a ++ ['.']) ++ attrText (b :: r') from by simp]
+          exact solidT_append_left' _ this
+    rw [show e.flatten ++ flattenGC c1 ++ g1 ++ '.' :: gd ++ attrText attrs =
+      (e.flatten ++ flattenGC c1 ++ g1 ++ '.' :: gd) ++ attrText attrs from by simp]
+    exact solidT_append_left' _ hat
 
 /-- leaf texts and the normalised containers are non-empty and do not end in a line break -/
 theorem norm_flatten_solid : ∀ (c : Cst) (i : Nat), c.wf = true → solidT (c.norm i).flatten
@@ -342,6 +376,7 @@ theorem norm_flatten_solid : ∀ (c : Cst) (i : Nat), c.wf = true → solidT (c.
     simp only [Cst.norm, Cst.flatten]
     exact solidT_append_left' _ (norm_flatten_solid a _ h.2)
   | .kw w c1 g1 hd c2 g2 c3 g3 b, i, h => by simp only [Cst.norm]; exact flatten_solid _ h
+  | .sel e c1 g1 gd attrs, i, h => by simp only [Cst.norm]; exact flatten_solid _ h
 
 /-- what the tree normaliser writes between `=` and the value, and the value -/
 def valueNorm (g2 : Text) (v : Cst) (j : Nat) : Text :=
